@@ -4,14 +4,17 @@ from ..flow import resolver, peel, guards_of, rel_fact, aggregates, show, call_g
 from ..facts import AnchorMissing, op_const_int
 from . import shared
 
-LEVEL = ("decides properties of the code that only runs under non-default options: a learned nogood is "
-         "deleted only if it is not the reason of a trail entry and after both its watchers were removed, "
-         "and freed ids are reused only when a nogood is stored (J1); a restart only backtracks and "
-         "notifies — it never touches the nogood database (J2); the no-learning resolver posts with a "
-         "stored reason (J3 = U2); the call closure of nogood deletion — never executed by the test-suite "
-         "— contains no unimplemented!/todo!/panic! (J4); the no-learning resolver reads a decision back "
-         "with the arity it was written with (J5). Does not decide equality of answers across option "
-         "values, nor termination under forget-everything settings")
+LEVEL = ('decides properties of the code that only runs under non-default options: a learned nogood is'
+         ' deleted only if it is not the reason of a trail entry and after both its watchers were '
+         'removed, and freed ids are reused only when a nogood is stored (J1); a restart only '
+         'backtracks and notifies — it never touches the nogood database (J2); the no-learning '
+         'resolver posts with a stored reason (J3 = U2); the call closure of nogood deletion — never '
+         'executed by the test-suite — contains no unimplemented!/todo!/panic! (J4); the no-learning '
+         'resolver reads a decision back with the arity it was written with (J5). '
+         'is_nogood_propagating answers true whenever the nogood is the reason of the trail entry of '
+         "its propagated predicate (J1 TABLE); the no-learning resolver's flipped decision carries a "
+         'reason covering every earlier level (J7). Does not decide equality of answers across option '
+         'values, nor termination under forget-everything settings')
 TECHNIQUE = "static analysis: dominance / who-may-call / call-graph closure / arity agreement over rustc MIR"
 
 
